@@ -33,8 +33,8 @@
                                  the scan (`let mut piece_start = 0`, `piece_start =
                                  i + 2`) and every `+`/`-`/`*`/assignment on byte
                                  positions in the three decoders are GENERATED from
-                                 the source (`parsefacts`, section C) and are the
-                                 ones the model is written with.
+                                 the source (target `fspanfacts`) and are the ones
+                                 the model is written with: `Props/C06FSpansSource`.
 
   The scan itself is tied to the source by the generated call skeleton of
   `unescape_f_string_part` (`Props/C06ParseSource`) and by the differential run
@@ -136,41 +136,7 @@ theorem fText_error_cites_escape (c : Ctx) (hl : LitOk c) (sp : Span) (hsp : Spa
       · rw [← he]; exact h2
   · cases h
 
-/-! ## the constants of the scan are the source's (target `parsefacts`, section C) -/
-
-/-- `let mut piece_start = 0;` and `piece_start = i + 2;` in `unescape_f_string_part` as the translator reads them
-from the source: the values the model's `uScan` is written with. A changed constant changes the generated
-definition and this theorem fails. -/
-theorem source_piece_start_constants : Gen.ParseFacts.fPieceInit = 0 ∧ Gen.ParseFacts.fPieceStep = 2 := ⟨rfl, rfl⟩
-
-/-- the brace-escape arm of the model's scan advances `piece_start` to `i + <the source's step>` and cuts
-`piece_start..i`; the scan starts with `piece_start = <the source's initial value>` -/
-theorem uScan_brace_arm_uses_source_step (c : Char) (hc : c = '{' ∨ c = '}') (i ps : Nat) (ds : List Char)
-    (acc : List (Nat × Nat)) :
-    uScan .normal i ps (c :: c :: ds) acc
-      = uScan .normal (i + sz c + sz c) (i + Gen.ParseFacts.fPieceStep) ds ((ps, i) :: acc) := by
-  have h1 : c ≠ '\\' := by rcases hc with rfl | rfl <;> decide
-  simp [uScan, h1, hc, source_piece_start_constants.2]
-
-theorem pieces_start_from_source_init (t : List Char) :
-    pieces t = (uScan .normal 0 Gen.ParseFacts.fPieceInit t []).1 ++ [((uScan .normal 0 Gen.ParseFacts.fPieceInit t []).2, blen t)] := by
-  rw [source_piece_start_constants.1]; rfl
-
-/-- every piece of arithmetic on byte positions in the three decoders, as the translator lists it from the source
-(locals renamed: `v0` = the text, `v1` = its span, `v3` = `piece_start`, `v5` = the scan index `i`, `v4` = the
-escaper's range): the shapes the model (`Model/Parse.fText`, `decodeLit`) was written against. -/
-theorem source_arith_unescape_f_string_part : Gen.ParseFacts.arith_unescape_f_string_part
-    = ["let v3=0", "start:v1.start+v3", "v3=v5+2", "start:v1.start+v3"] := rfl
-
-theorem source_arith_unescape_str : Gen.ParseFacts.arith_unescape_str
-    = ["let v8=v1.start+v4.start", "let v9=v1.start+v4.end"] := rfl
-
-theorem source_arith_unescape_char : Gen.ParseFacts.arith_unescape_char = [] := rfl
-
 /-! ## non-vacuity -/
-
-/-- the brace arm fires: `{{` from `piece_start = 0` cuts `0..0` and continues at 2 -/
-example : uScan .normal 0 0 ['{', '{'] [] = ([(0, 0)], 2) := by decide
 
 
 /-- the part `{{€\q` (the class the check had missed: a brace escape, a 3-byte
